@@ -30,13 +30,18 @@ def family_of(s):
 def plan(tier, seed):
     alt = spaces.label_choices(seed, 1)[0]
     if tier == 'quick':
-        blocks = [dict(n=3, m=2, labels='ints'), dict(n=2, m=3, labels='ints'), dict(n=4, m=1, labels='ints'),
+        blocks = [dict(n=3, m=2, labels='ints', histories=True), dict(n=2, m=3, labels='ints', histories=True), dict(n=4, m=1, labels='ints'),
                   dict(n=3, m=2, labels=alt), dict(n=4, m=2, labels='ints', schemes='core')]
     else:
         blocks = [dict(n=4, m=2, labels='ints'), dict(n=3, m=3, labels='ints'), dict(n=2, m=4, labels='ints'),
                   dict(n=5, m=1, labels='ints'), dict(n=4, m=2, labels=alt, schemes='core'),
                   dict(n=3, m=4, labels='ints', schemes='core')]
-    return [{'name': 'borda', 'cfg': {}, 'shards': ds_shards(blocks), 'expected_cases': ds_expected(blocks)}]
+    shards = ds_shards(blocks)
+    if tier == 'thorough':
+        # profile family: every dataset of exactly 15 rankings over 3 elements made of <= 3 ranking types
+        for t1 in range(spaces.SWO_COUNT[3]):
+            shards.append({'kind': 'profile15', 't1': t1})
+    return [{'name': 'borda', 'cfg': {}, 'shards': shards}]
 
 
 def init_worker(cfg):
@@ -46,11 +51,12 @@ def init_worker(cfg):
     _lib.update(A=BordaCount, Refuse=ScoringSchemeNotHandledException)
 
 
-def check_case(ctx, ds, lname, n, schemes):
+def check_case(ctx, ds, lname, n, schemes, flags=((True, False), (False, False), (True, True)), dataset_obj=None,
+               alg_objs=None, origin=None):
     from ..lib import mk_dataset, mk_scheme, labels_for, Back, wellformed
     labels = labels_for(lname, n)
     universe = spaces.universe_of(ds)
-    dataset = mk_dataset(ds, labels)
+    dataset = dataset_obj if dataset_obj is not None else mk_dataset(ds, labels)
     back = Back(labels, universe)
     complete = spaces.is_complete(ds)
     for s in schemes:
@@ -61,11 +67,13 @@ def check_case(ctx, ds, lname, n, schemes):
                 want = None
             else:
                 want = refmodel.ref_borda(ds, universe, fam or 'induced', ubi)
-            for one, reused in ((True, False), (False, False), (True, True)):
+            for one, reused in flags:
                 case = {'cfg': {}, 'dataset': ds, 'labels': lname, 'n': n, 'scheme': s, 'use_bucket_id': ubi, 'one': one,
-                        'reused_object': reused}
+                        'reused_object': reused, 'mutated_in_place_from': origin}
                 ctx.evals += 1
-                if reused:
+                if alg_objs is not None:
+                    alg = alg_objs[ubi]
+                elif reused:
                     alg = _lib.setdefault(('inst', ubi), _lib['A'](use_bucket_id=ubi))
                     ctx.count('executions_on_a_reused_algorithm_object')
                 else:
@@ -115,12 +123,73 @@ def scheme_list(kind):
     return [s for _, s in ACCEPTED] + OTHERS
 
 
+SEQ = [spaces.INDUCED, spaces.UNIFYING, spaces.UNIFYING_05, spaces.INDUCED_05, spaces.UNIFYING, spaces.PSEUDO, spaces.INDUCED]
+
+
+def sequences(ctx, ds, lname, n):
+    """one long-lived object per variant serving, for EVERY dataset of the shard, the scheme sequence induced,
+    unifying, unifying p=.5, induced p=.5, unifying, pseudo (refused on incomplete data), induced: the answer must not
+    depend on what the object was asked before (on this dataset or the previous one)."""
+    algs = {ubi: _lib.setdefault(('seq', ubi), _lib['A'](use_bucket_id=ubi)) for ubi in (False, True)}
+    for s in SEQ:
+        check_case(ctx, ds, lname, n, [s], flags=((True, True),), alg_objs=algs, origin=['sequence', 'see SEQ'])
+        ctx.count('executions_in_scheme_sequences_on_one_object')
+
+
+def histories(ctx, ds0, lname, n, schemes):
+    """run -> mutate in place -> run again on the SAME dataset object and the SAME algorithm objects."""
+    from ..lib import labels_for, mutation_histories, prepare_mutated, mk_scheme
+    labels = labels_for(lname, n)
+    for what, after in mutation_histories(ds0):
+        for s in schemes:
+            algs = {ubi: _lib['A'](use_bucket_id=ubi) for ubi in (False, True)}
+
+            def warm(dd):
+                for a in algs.values():
+                    try:
+                        a.compute_consensus_rankings(dd, mk_scheme(s), True)
+                    except Exception:
+                        pass
+            d = prepare_mutated(ds0, labels, what, warm=warm)
+            check_case(ctx, after, lname, n, [s], flags=((True, True),), dataset_obj=d, alg_objs=algs, origin=[ds0, what])
+            ctx.count('executions_after_run_mutate_on_the_same_objects')
+
+
+def run_profile(ctx, sh):
+    """all datasets t1^a t2^b t3^c with a+b+c = 15, a >= 1 (t1 fixed by the shard, t2 <= t3 as indices):
+    means with denominators up to 15, where float shortcuts such as total * (1.0 / count) go wrong."""
+    swo = spaces.sub_weak_orders(3)
+    t1 = swo[sh['t1']]
+    schemes = [spaces.INDUCED, spaces.UNIFYING]
+    n = 0
+    for i2 in range(sh['t1'], len(swo)):
+        for i3 in range(i2, len(swo)):
+            for a in range(1, 16):
+                for b in range(0, 16 - a):
+                    c = 15 - a - b
+                    if (i2 == sh["t1"] and b > 0) or (i3 == i2 and c > 0):
+                        continue
+                    ds = (t1,) * a + (swo[i2],) * b + (swo[i3],) * c
+                    if not spaces.universe_of(ds):
+                        continue
+                    n += 1
+                    check_case(ctx, ds, 'ints', 3, schemes, flags=((True, False),))
+    ctx.count('profile_datasets', n)
+    ctx.cases = n
+
+
 def run_shard(sh):
     ctx = Ctx(ID)
+    if sh.get('kind') == 'profile15':
+        run_profile(ctx, sh)
+        return ctx.result()
     schemes = scheme_list(sh.get('schemes'))
     for index, ds in spaces.ds_iter_strided(sh['n'], sh['m'], sh['shard'], sh['nshards']):
         before = ctx.cases
         check_case(ctx, ds, sh['labels'], sh['n'], schemes)
+        if sh.get('histories'):
+            sequences(ctx, ds, sh['labels'], sh['n'])
+            histories(ctx, ds, sh['labels'], sh['n'], [spaces.UNIFYING, spaces.INDUCED_05])
         ctx.count('dataset_scheme_variant_cases', ctx.cases - before)
         ctx.cases = before + 1
     return ctx.result()
